@@ -423,3 +423,11 @@ Proof.
   - apply IH. intros x Hx. pose proof (H x (or_intror Hx)) as E. cbn [countN] in E.
     destruct (x =? y); [|exact E]. pose proof (countN_In_pos _ _ Hx). lia.
 Qed.
+
+Lemma NoDup_app_intro {A} (a b : list A) : NoDup a -> NoDup b -> (forall x, In x b -> In x a -> False) -> NoDup (a ++ b).
+Proof.
+  intros Ha Hb Hd. induction Ha as [|x t Hn Ht IH]; cbn [app]; [exact Hb|].
+  constructor.
+  - intros Hi. apply in_app_or in Hi as [Hi|Hi]; [tauto|]. apply (Hd x Hi). now left.
+  - apply IH. intros y Hy Hy'. apply (Hd y Hy). now right.
+Qed.
